@@ -98,6 +98,21 @@ class RunData:
             json.dump({"no_warnings": True}, f)
 
 
+def valid_for(evo, op, rel, data: bytes):
+    """complete output of the kind the option that names `rel` produces
+    (the file name need not carry the usual extension)"""
+    o = op.get("opts") or {}
+    kinds = [k for k in ("serialize_plot", "save_results") if o.get(k) == rel]
+    if kinds:
+        ok = []
+        if "serialize_plot" in kinds:
+            ok.append(data[:1] == b"\x80" and data[-1:] == b".")
+        if "save_results" in kinds:
+            ok.append(valid_content(evo, "x.zip", data))
+        return any(ok)
+    return valid_content(evo, rel, data)
+
+
 def valid_content(evo, rel, data: bytes):
     """does `data` look like a complete output of the kind its name says?"""
     ext = os.path.splitext(rel)[1].lower()
@@ -212,6 +227,28 @@ def _expected_outputs(op):
         if o.get("serialize_plot"):
             exact.append(o["serialize_plot"])
     return exact, globs
+
+
+def collision_paths(op):
+    """output paths that one command writes more than once"""
+    if not op["kind"].startswith("cli_") or op["kind"] == "cli_generate":
+        return []
+    o = op["opts"]
+    out = []
+    if op["kind"] == "cli_traj":
+        stems = [os.path.splitext(os.path.basename(f))[0]
+                 for f in op["inputs"] if f != o.get("ref")]
+        if o.get("ref"):
+            stems.append(os.path.splitext(os.path.basename(o["ref"]))[0])
+        dup = sorted({x for x in stems if stems.count(x) > 1})
+        for ext, flag in ((".tum", "save_as_tum"), (".kitti",
+                                                    "save_as_kitti")):
+            if o.get(flag):
+                out += [x + ext for x in dup]
+    named = [o[k] for k in ("save_plot", "serialize_plot", "save_results",
+                            "save_table") if o.get(k)]
+    out += sorted({x for x in named if named.count(x) > 1})
+    return out
 
 
 def warnings_on(op):
@@ -365,6 +402,10 @@ class C17(Check):
                 o["serialize_plot"] = sub + "plots.pkl"
             if not o:
                 o["save_results"] = "res.zip"
+            if rng.random() < 0.05:
+                # the same file name given to two options
+                o["serialize_plot"] = o.get("save_results") or "res.zip"
+                o["save_results"] = o["serialize_plot"]
             if rng.random() < 0.3:
                 o["align"] = True
             op.update(opts=o, fmt=rng.choice(["tum", "tum", "kitti"]),
@@ -375,7 +416,8 @@ class C17(Check):
                 inputs.append("in2/est.txt")  # same stem: colliding exports
             o = {}
             if rng.random() < 0.4:
-                o["ref"] = "in/ref.txt"
+                o["ref"] = rng.choice(["in/ref.txt", "in/ref.txt",
+                                       "in2/est.txt"])
             r = rng.random()
             if r < 0.5:
                 o["save_as_tum"] = True
@@ -674,6 +716,7 @@ class C17(Check):
         sb = self.sb
         res = RunResult()
         data = self._data(case["seed"] % 5)
+        self._cur_data = data
         sb.reset()
         trail = []
         violation = None
@@ -904,7 +947,7 @@ class C17(Check):
                 if op.get("no_warnings_via_config"):
                     res.stats["probe.no_warnings_via_config"] += 1
             if is_target and exc is None and not fault:
-                if new is None or not valid_content(self.evo, P, new[0]):
+                if new is None or not valid_for(self.evo, op, P, new[0]):
                     return self._fail(op, "replaced-by-invalid-output", path=P,
                                       size=None if new is None else len(new[0]))
                 res.stats["probe.confirmed_replaced"] += 1
@@ -915,8 +958,8 @@ class C17(Check):
         # nothing else is written in the place of a declined target
         for P in sorted(set(after) - set(before)):
             if P in exact or any(fnmatch.fnmatch(P, g) for g in globs):
-                if exc is None and not fault and not valid_content(
-                        self.evo, P, after[P][0]):
+                if exc is None and not fault and not valid_for(
+                        self.evo, op, P, after[P][0]):
                     return self._fail(op, "invalid-new-output", path=P)
                 continue
             if fault or exc is not None:
@@ -927,9 +970,7 @@ class C17(Check):
             later = [p for p in exact if p not in before and p not in after]
             if later:
                 res.stats["probe.multi_file_export_declined_midway"] += 1
-        if op["kind"] == "cli_traj" and len(op.get("inputs", ())) > 1 and (
-                op["opts"].get("save_as_tum") or op["opts"].get(
-                    "save_as_kitti")):
+        if collision_paths(op):
             res.stats["probe.colliding_outputs_in_one_command"] += 1
             v = self._colliding(op, events, prompts, before, after, exc, W)
             if v:
@@ -943,36 +984,88 @@ class C17(Check):
         return bool(exact) and exact[0] == P
 
     def _colliding(self, op, events, prompts, before, after, exc, W):
-        """two inputs with the same stem export to one file: the second export
-        meets the file the first one just created and must ask"""
-        for ext, flag in ((".tum", "save_as_tum"), (".kitti",
-                                                    "save_as_kitti")):
-            if not op["opts"].get(flag):
+        """several outputs of ONE command land on the same path (inputs with
+        equal stems, --ref with the stem of an input, the same file name
+        given to two options): every export after the first meets the file
+        the previous one just created and must ask.  Decided on the content
+        that is left in the end: it must be the export the answers select."""
+        if not W or exc is not None:
+            return None
+        for P in collision_paths(op):
+            answers = [a for _i, path, a in prompts if path == P]
+            exports = self._exports_to(op, P)
+            if len(exports) < 2:
                 continue
-            P = "est" + ext
-            writes = [i for i, e in enumerate(events)
-                      if e[0] in sandbox.MUTATING and P in e[1:]]
-            if not W or exc is not None:
+            cur = "pre" if P in before else None
+            k = 0
+            for ex in exports:
+                if cur is None:
+                    cur = ex  # nothing there yet: written without a question
+                    continue
+                if k >= len(answers):
+                    cur = "unknown"  # fewer questions than exports
+                    break
+                if answers[k] == "y":
+                    cur = ex
+                k += 1
+            if cur in ("pre", "unknown", None) or P not in after:
+                if cur == "unknown":
+                    # an export that met an existing file without asking
+                    return self._fail(op, "later-output-overwrote-earlier-one",
+                                      path=P, exports=exports,
+                                      answers=answers)
                 continue
-            asked = [(i, a) for i, path, a in prompts if path == P]
-            existed = P in before
-            need = 2 if existed else 1
-            # every write after the first needs its own 'y' before it
-            ys = [i for i, a in asked if a == "y"]
-            n_writes_allowed = len(ys) + (0 if existed else 1)
-            # count distinct write "sessions": consecutive events w/o prompt
-            sessions = 0
-            last = None
-            for i in writes:
-                boundary = any(last is not None and last < pi < i
-                               for pi, _p, _a in prompts)
-                if last is None or boundary:
-                    sessions += 1
-                last = i
-            if sessions > n_writes_allowed:
-                return self._fail(op, "second-export-overwrote-first",
-                                  path=P, sessions=sessions, y_answers=len(ys),
-                                  prompts=[list(p) for p in prompts])
+            got = self._identify(P, after[P][0])
+            if got is not None and got != cur:
+                return self._fail(op, "later-output-overwrote-earlier-one",
+                                  path=P, expected_content=cur,
+                                  actual_content=got, answers=answers)
+        return None
+
+    def _exports_to(self, op, P):
+        """labels of the exports that go to path P, in the order of writing"""
+        o = op["opts"]
+        out = []
+        if op["kind"] == "cli_traj" and P.endswith((".tum", ".kitti")):
+            names = [f for f in op["inputs"] if f != o.get("ref")] + (
+                [o["ref"]] if o.get("ref") else [])
+            stem = os.path.splitext(P)[0]
+            for f in names:
+                if os.path.splitext(os.path.basename(f))[0] == stem:
+                    out.append("traj:" + f)
+            return out
+        for key in ("save_plot", "serialize_plot", "save_results",
+                    "save_table"):
+            if o.get(key) == P:
+                out.append(key)
+        if op["kind"] == "cli_res":
+            out.sort(key=["save_table", "save_plot", "serialize_plot"].index)
+        return out
+
+    def _identify(self, P, data_bytes):
+        """which export does this content come from?"""
+        if P.endswith((".tum", ".kitti")):
+            try:
+                rows = np.array([[float(x) for x in l.split()]
+                                 for l in data_bytes.decode().splitlines()
+                                 if l.strip()])
+            except ValueError:
+                return None
+            files = {"in/ref.txt": 0, "in/est.txt": 1, "in2/est.txt": 2}
+            for f, k in files.items():
+                pos = self._cur_data.trajs[k].positions_xyz
+                cols = rows[:, 1:4] if P.endswith(".tum") else rows[:, [3, 7,
+                                                                         11]]
+                if cols.shape == pos.shape and np.allclose(cols, pos,
+                                                           atol=1e-9):
+                    return "traj:" + f
+            return None
+        if data_bytes[:2] == b"PK":
+            return "save_results"
+        if data_bytes[:1] == b"\x80":
+            return "serialize_plot"
+        if data_bytes[:5] == b"%PDF-" or data_bytes[:4] == b"\x89PNG":
+            return "save_plot"
         return None
 
     # ------------------------------------------------------------ shrinking
